@@ -58,7 +58,7 @@ def work(item):
         fin = isinstance(M, FinancialAssetMarket)
         issuer = None
         if fin:
-            issuer = [s for s in zone if s.Code == M.IssuerShortCode and (s.HasF or not isinstance(M, sd.MoneyMarket))]
+            issuer = [s for s in zone if s.Code == M.IssuerShortCode and not isinstance(s, Market)]
             issuer = issuer[0] if issuer else None
         # (i) total demand = sum of the demands of every sector of the zone that declares one
         demanders = []
